@@ -113,6 +113,33 @@ def disturb(ta, pre) -> None:
             pass
 
 
+_SYNC_NAMES = {"Event Sync", "Context Sync"}
+
+
+def relink(rows):
+    """Rows with the link column recomputed from the correlation ids themselves (C02's rule): the id of the unique
+    event on the opposite side (host call versus device activity; a synchronisation record is device side) carrying
+    the same correlation id, 0 when there is none, -1 without a correlation id. Oracles of properties that are stated
+    in terms of "the launch call of a device activity" use this instead of the implementation's column, so that a
+    broken link shows in them too."""
+    def dev(x):
+        return x[5] >= 0 or x[9] in _SYNC_NAMES
+    by_corr: Dict[Any, List[Any]] = {}
+    for x in rows:
+        if x[6] != -1:
+            by_corr.setdefault(x[6], []).append(x)
+    out = []
+    for x in rows:
+        y = list(x)
+        if x[6] == -1:
+            y[7] = -1
+        else:
+            ps = [p for p in by_corr[x[6]] if dev(p) != dev(x)]
+            y[7] = ps[0][0] if len(ps) == 1 else (0 if not ps else x[7])
+        out.append(y)
+    return out
+
+
 def frac_twin(case: Dict[str, Any], call, **kw):
     """The same trace with every time divided by 8 (dyadic fractions of a microsecond), loaded with the documented
     option HTA_DISABLE_NS_ROUNDING=1, handed to `call(ta)`. Whatever `call` returns is the result; an exception is
